@@ -53,7 +53,7 @@ def pda_to_one_accepting_state_in_place(P: PDA) -> None:
     Q.add(q_accept)
 
     for q in F:
-        delta[q, epsilon, epsilon].add((q_accept, epsilon))
+        delta.setdefault((q, epsilon, epsilon), set()).add((q_accept, epsilon))
 
     F.clear()
     F.add(q_accept)
@@ -75,7 +75,7 @@ def pda_to_accept_on_empty_stack_in_place(P: PDA) -> None:
     # define a new initial state
     q_initial = fresh_state(Q, 'q_initial')
     Q.add(q_initial)
-    delta[q_initial, epsilon, epsilon].add((q0, stack_bottom))
+    delta.setdefault((q_initial, epsilon, epsilon), set()).add((q0, stack_bottom))
     P.q0 = q_initial
 
     # define a new accepting state; symbols left on the stack are popped in q_drain first
@@ -84,12 +84,12 @@ def pda_to_accept_on_empty_stack_in_place(P: PDA) -> None:
     q_accept = fresh_state(Q, 'q_accept')
     Q.add(q_accept)
     for q in F:
-        delta[q, epsilon, stack_bottom].add((q_accept, epsilon))
+        delta.setdefault((q, epsilon, stack_bottom), set()).add((q_accept, epsilon))
         for symbol in Gamma - {stack_bottom}:
-            delta[q, epsilon, symbol].add((q_drain, epsilon))
+            delta.setdefault((q, epsilon, symbol), set()).add((q_drain, epsilon))
     for symbol in Gamma - {stack_bottom}:
-        delta[q_drain, epsilon, symbol].add((q_drain, epsilon))
-    delta[q_drain, epsilon, stack_bottom].add((q_accept, epsilon))
+        delta.setdefault((q_drain, epsilon, symbol), set()).add((q_drain, epsilon))
+    delta.setdefault((q_drain, epsilon, stack_bottom), set()).add((q_accept, epsilon))
     F.clear()
     F.add(q_accept)
 
